@@ -324,7 +324,8 @@ def dec_fields_ddm(v):
 
 
 def validators(repo):
-    """(function, precision, {digit index: threshold}, node) for every HP-notation validator"""
+    """(function, precision, {field: smallest rejected value}) for every HP-notation validator: a function that renders a
+    number with f'{x:.Nf}' and raises when a digit / digit group of the decimals is too large"""
     m = repo.module('geodepy.angles')
     out = []
     for f in m.all_functions():
@@ -335,15 +336,37 @@ def validators(repo):
                 mm = re.match(r'^\.(\d+)f$', spec)
                 if mm:
                     prec = int(mm.group(1))
-        digits = {}
+        fields = {}
+        odd = []
         for n in ast.walk(f.node):
-            if isinstance(n, ast.If) and any(isinstance(b, ast.Raise) for b in n.body) and isinstance(n.test, ast.Compare):
+            if isinstance(n, ast.If) and any(isinstance(b, ast.Raise) for b in n.body) and isinstance(n.test, ast.Compare) and len(n.test.ops) == 1:
                 t = n.test
                 if isinstance(t.left, ast.Call) and getattr(t.left.func, 'id', '') == 'int' and t.left.args and isinstance(t.left.args[0], ast.Subscript) \
-                        and isinstance(t.left.args[0].slice, ast.Constant) and isinstance(t.comparators[0], ast.Constant):
-                    digits[t.left.args[0].slice.value] = (type(t.ops[0]).__name__, t.comparators[0].value)
-        if prec is not None and digits:
-            out.append((f, prec, digits))
+                        and isinstance(t.comparators[0], ast.Constant) and isinstance(t.comparators[0].value, int):
+                    sl = t.left.args[0].slice
+                    k = t.comparators[0].value
+                    op = type(t.ops[0])
+                    if op is ast.Gt:
+                        least = k + 1
+                    elif op is ast.GtE:
+                        least = k
+                    else:
+                        odd.append(stmt_text(t))
+                        continue
+                    if isinstance(sl, ast.Constant) and sl.value in (0, 2):
+                        fields['minutes' if sl.value == 0 else 'seconds'] = least * 10      # a tens digit
+                    elif isinstance(sl, ast.Slice) and isinstance(sl.upper, ast.Constant):
+                        lo = sl.lower.value if isinstance(sl.lower, ast.Constant) else 0
+                        if (lo, sl.upper.value) == (0, 2):
+                            fields['minutes'] = least
+                        elif (lo, sl.upper.value) == (2, 4):
+                            fields['seconds'] = least
+                        else:
+                            odd.append(stmt_text(t))
+                    else:
+                        odd.append(stmt_text(t))
+        if prec is not None and (fields or odd):
+            out.append((f, prec, fields, odd))
     return out
 
 
@@ -354,13 +377,17 @@ def validator_rules(repo, rep):
         rep.undecided('R-SIBLING', key, 'geodepy/angles.py:1', 'fewer than two HP-notation validators found (%d)' % len(vs))
         return
     ref = None
-    for f, prec, digits in vs:
+    for f, prec, fields, odd in vs:
         rep.analysed(f)
         k = key + '::' + f.qualname
         w = where(f, f.node)
-        if digits != {0: ('Gt', 5), 2: ('Gt', 5)}:
-            rep.violated('R-SIBLING', k, w, '%s does not reject exactly a first or third decimal digit > 5: %s' % (f.qualname, digits),
-                         expected="{0: ('Gt', 5), 2: ('Gt', 5)}", actual=str(digits))
+        if odd:
+            rep.undecided('R-SIBLING', k, w, '%s: validity test not in a recognised form: %s' % (f.qualname, odd))
+            continue
+        if fields != {'minutes': 60, 'seconds': 60}:
+            rep.violated('R-SIBLING', k, w, '%s does not reject exactly the HP values whose minutes or seconds field is 60 or more: it rejects minutes >= %s, seconds >= %s' % (
+                f.qualname, fields.get('minutes', 'never'), fields.get('seconds', 'never')),
+                expected="{'minutes': 60, 'seconds': 60}", actual=str(fields))
             continue
         if prec > 13:
             rep.violated('R-SIBLING', k, w, '%s validates HP notation on %d decimals: beyond the 13 places the module documents for its doubles, binary noise reaches the '
@@ -369,12 +396,12 @@ def validator_rules(repo, rep):
             continue
         if ref is None:
             ref = (f, prec)
-            rep.holds('R-SIBLING', k, w, '%s validates digits 1 and 3 of the %d-decimal rendering' % (f.qualname, prec))
+            rep.holds('R-SIBLING', k, w, '%s rejects minutes/seconds fields >= 60 of the %d-decimal rendering' % (f.qualname, prec))
         elif prec != ref[1]:
             rep.violated('R-SIBLING', k, w, '%s validates on %d decimals but %s on %d: one rejects values the other accepts' % (f.qualname, prec, ref[0].qualname, ref[1]),
                          expected=str(ref[1]), actual=str(prec))
         else:
-            rep.holds('R-SIBLING', k, w, '%s validates digits 1 and 3 of the %d-decimal rendering (same as %s)' % (f.qualname, prec, ref[0].qualname))
+            rep.holds('R-SIBLING', k, w, '%s rejects minutes/seconds fields >= 60 of the %d-decimal rendering (same as %s)' % (f.qualname, prec, ref[0].qualname))
 
 
 def carry_rule(repo, rep):
@@ -399,6 +426,28 @@ def carry_rule(repo, rep):
         if isinstance(st, ast.If) and st is not carry[0] and mvar in [n.id for n in ast.walk(st.test) if isinstance(n, ast.Name)] and '60' in stmt_text(st.test):
             if any(isinstance(n, ast.AugAssign) and isinstance(n.op, ast.Add) for n in ast.walk(st)):
                 cascade = st
+    # values derived from a carried field before the carry must not be used after it (they would miss the carry)
+    carried = set()
+    for n in ast.walk(carry[0]):
+        if isinstance(n, (ast.Assign, ast.AugAssign)):
+            for t in (n.targets if isinstance(n, ast.Assign) else [n.target]):
+                if isinstance(t, ast.Name):
+                    carried.add(t.id)
+    stale = None
+    for st in f.node.body[:idx]:
+        if isinstance(st, ast.Assign) and len(st.targets) == 1 and isinstance(st.targets[0], ast.Name) and st.targets[0].id not in carried:
+            reads = set(n.id for n in ast.walk(st.value) if isinstance(n, ast.Name))
+            if reads & carried:
+                wname = st.targets[0].id
+                used_after = any(isinstance(n, ast.Name) and n.id == wname and isinstance(n.ctx, ast.Load) for s_ in f.node.body[idx + 1:] for n in ast.walk(s_))
+                if used_after:
+                    stale = (st, wname, sorted(reads & carried))
+    if stale is not None:
+        rep.violated('R-CARRY', key + '::stale', where(f, stale[0]), '%s is computed from %s before the carry and used after it: when the seconds round up to 60 and the carry '
+                     'reaches %s, the assembled HP value misses it' % (stale[1], ', '.join(stale[2]), ', '.join(stale[2])),
+                     expected='format the fields after the carry', actual=stmt_text(stale[0]))
+    else:
+        rep.holds('R-CARRY', key + '::stale', where(f, carry[0]), 'no value derived from degree/minute/second before the carry is used after it')
     if cascade is not None:
         rep.holds('R-CARRY', key, where(f, cascade), 'a carry out of the seconds into the minutes is followed by a carry out of the minutes into the degrees')
     else:
